@@ -4,7 +4,9 @@ confirmed table (conflict truncation, guarded purge, snapshot-install purge/rese
 executes them); (b) a full reset of a follower log on the append path must be control dependent on a
 term mismatch, not merely on prev_log == (0,0); (d) purges are guarded by can_purge_logs, whose decision
 table is `last_included.index < commit_index && (no previous purge || previous.index < last_included.index)`,
-or directly follow a successful snapshot install.  The election restriction half is C01-d."""
+or directly follow a successful snapshot install; (e) the index allocator next_id - the index a new leader's
+first append REPLACES - is never rewound after entries were (re)inserted in the same function, and the
+raise-on-insert write is taken only upwards.  The election restriction half is C01-d."""
 from .common import *
 
 EXPLANATION = __doc__
@@ -189,3 +191,66 @@ def run(ctx):
                       "purge boundary = last_included of the snapshot that was just installed successfully",
                       "purge_logs_up_to on the install path is not dominated by a successful snapshot application, or its boundary is not the installed snapshot's last_included (ok=%s meta=%s)" % (ok, from_meta),
                       loc(mb, bi), wit and bpath(mb, wit))
+
+
+# ---------------------------------------------------------------------------------------------- C05-e
+_run_abd = run
+
+
+def run(ctx):
+    _run_abd(ctx)
+    allocator_rewinds(ctx)
+
+
+NEXT_ID_WRITE = r"atomic::Atomic\w*::(store|swap|fetch_min|fetch_sub|compare_exchange|compare_exchange_weak|fetch_update)$"
+MEM_INSERT = r"(BufferedRaftLog::insert_to_memory|SkipMap::insert|SkipMap::get_or_insert|RaftLog::insert_batch|RaftLog::append_entries|BufferedRaftLog::append_entries|BufferedRaftLog::insert_batch)$"
+
+
+def allocator_rewinds(ctx):
+    """C05-e the index allocator is never rewound below entries that were inserted before the rewind.
+    `next_id` is where a leader writes its next entry (pre_allocate_id_range -> insert_batch REPLACES whatever is at
+    that index). Inserting entries only ever raises next_id; a plain write of another value (the truncation point,
+    1 on reset) after entries have been (re)inserted in the same function leaves next_id at or below an occupied
+    index: a follower that repaired a conflict and then wins an election overwrites the repaired - possibly
+    committed - entries with its no-op. Rule: in every function of BufferedRaftLog, no in-memory insertion may
+    precede (reach, without being dominated by) a non-raising write of next_id. A write is 'raising' when its value is
+    (max index of the inserted entries) + 1 and it is taken only under `max >= current next_id`."""
+    F = ctx.F
+    fns = [b for b in F.bodies.values() if b.parent is None and self_type_of(F, b.id).endswith("buffered_raft_log::BufferedRaftLog") and not re.search(r"(_test|/tests?/|test_utils|mock)", b.file or "")]
+    n_writes, n_rewinds = 0, 0
+    for fn in fns:
+        for b in F.group_bodies(fn):
+            writes = field_receiver_calls(F, b, "BufferedRaftLog", "next_id", NEXT_ID_WRITE)
+            if not writes:
+                continue
+            conds = None
+            inserts = [x for (x, t) in b.calls() if re.search(MEM_INSERT, strip_generics(callee_key(t) or ""))
+                       or F.call_reaches(t, lambda k: re.search(r"(BufferedRaftLog::insert_to_memory|SkipMap::insert)$", strip_generics(k)) is not None, 3)]
+            for (bi, t) in writes:
+                n_writes += 1
+                v = Slice(F, b).operand(t["args"][1])
+                ops = set(x[1] for x in v.sources if x[0] == "binop")
+                raising = bool(ops & {"Add", "AddWithOverflow"}) and "1" in v.consts() and (v.has_field("Entry", "index") or v.has_call(r"Iterator::max$"))
+                if raising:
+                    conds = conds or edge_conditions(b)
+                    g, _w, _ = guarded_by(b, bi, lambda c: cmp_rel(F, c, lambda s: s.has_field("Entry", "index") or s.has_call(r"Iterator::max$"),
+                                                                   lambda s: s.has_field("BufferedRaftLog", "next_id")) in (">=", ">"), conds)
+                    ctx.check("C05-e", "%s#next_id-raise#only-upwards" % fkey(fn), g, "next_id = max inserted index + 1 only when that index >= next_id",
+                              "next_id is set to (max inserted index + 1) without the test `max index >= next_id`: inserting an overlap below the tail rewinds the allocator", loc(b, bi))
+                    continue
+                n_rewinds += 1
+                before = []
+                for x in inserts:
+                    if x == bi:
+                        continue
+                    seen, _p = b.reach_from(x)
+                    if bi in seen and not b.dominates(bi, x):
+                        before.append(x)
+                consts = sorted(c for c in v.consts() if c.lstrip("-").isdigit())
+                what = "reset-to-%s" % consts[0] if consts and not [x for x in v.sources if x[0] in ("param", "call", "field")] else "rewind"
+                ctx.check("C05-e", "%s#next_id-%s#before-any-insert" % (fkey(fn), what), not before,
+                          "the allocator is rewound before the entries are (re)inserted; the insertion raises it past the new tail",
+                          "next_id is rewound AFTER entries were inserted in this function (insert at %s): it is left at or below an occupied index, and the next leader "
+                          "append (pre_allocate_id_range -> insert_batch) overwrites entries that may be committed" % [loc(b, x) for x in before[:2]], loc(b, bi))
+    ctx.floor("C05-e", n_writes, 2, "non-increment writes of BufferedRaftLog.next_id (conflict rewind, reset; raise-on-insert when written as a plain store)")
+    ctx.floor("C05-e", n_rewinds, 2, "rewinding writes of next_id (conflict truncation, reset)")
